@@ -51,12 +51,13 @@ pub fn simple_text() -> impl Strategy<Value = String> {
 }
 
 pub fn xtext(rich_ok: bool) -> impl Strategy<Value = XText> {
-    (proptest::collection::vec(simple_text(), 1..4), any::<bool>(), proptest::option::weighted(0.2, simple_text()), any::<bool>()).prop_map(move |(mut runs, rich, ph, preserve)| {
+    (proptest::collection::vec(simple_text(), 1..4), any::<bool>(), proptest::option::weighted(0.2, simple_text()), any::<bool>(), prop_oneof![4 => Just(0u8), 1 => Just(1u8), 1 => Just(2u8), 1 => Just(3u8)]).prop_map(move |(mut runs, rich, ph, preserve, esc)| {
         let rich = rich && rich_ok;
         if !rich {
             runs.truncate(1);
         }
-        XText { runs, rich, phonetic: ph, preserve, esc: 0 }
+        // esc: how the characters are written (entities, decimal / hex references, CDATA sections)
+        XText { runs, rich, phonetic: ph, preserve, esc }
     })
 }
 
@@ -184,7 +185,10 @@ pub fn doc_strategy() -> impl Strategy<Value = XlsxDoc> {
         let n_styles = styles.as_ref().map_or(0, |s| s.cell_xfs.len() as u32);
         let names = ["Sheet1", "Data 2", "Résumé"];
         let sheets: Vec<_> = (0..n).map(|i| sheet_strategy(names[i].to_string(), n_styles).boxed()).collect();
-        let sst = (any::<bool>(), any::<bool>(), proptest::collection::vec(xtext(true).prop_map(SstExtra::Text), 0..3)).prop_map(|(dedupe, counts, prepend)| SstKnobs { prepend, interleave: None, dedupe, counts });
+        // unused items before and between the used ones, some of them empty in one of the schema-valid
+        // ways (<si/>, <si><t/></si>, only phonetic text): indices must keep counting them
+        let extra = || prop_oneof![2 => xtext(true).prop_map(SstExtra::Text), 1 => crate::props::c19::extra_strategy()];
+        let sst = (any::<bool>(), any::<bool>(), proptest::collection::vec(extra(), 0..3), proptest::option::weighted(0.3, extra())).prop_map(|(dedupe, counts, prepend, interleave)| SstKnobs { prepend, interleave, dedupe, counts });
         (sheets, Just(styles), sst, enc_strategy()).prop_map(|(sheets, styles, sst, enc)| XlsxDoc { sheets, styles, date1904: None, defined_names: vec![], sst, enc, vba: None, extra_parts: vec![] })
     })
 }
